@@ -38,7 +38,7 @@ SEEDS = ['0', '1', '2', '3', '5', '8', '13', '21', 'random', 'random']
 
 def lattice(tier):
     nserv = [1, 2] if tier == 'quick' else [1, 2, 3]
-    hdrs = [0, 1] if tier == 'quick' else [0, 1, 2]
+    hdrs = [0, 1, 2]
     nss = [1, 3] if tier == 'quick' else [1, 2, 3]
     out = []
     for ns_, opn, msgn, hd, flt, pt, nn, style, proto in itertools.product(nserv, (False, True), (False, True), hdrs, ('none', 'one', 'shared'),
